@@ -58,7 +58,13 @@ def decode_chunk(buf, chunk_size, num_channels):
             f"The JPEG chunk is encoded with mode={img.mode} instead of RGB"
             )
 
-    flat_chunk = np.asarray(img)
+    try:
+        flat_chunk = np.asarray(img)
+    except Exception as exc:
+        # PIL decodes lazily: truncated or corrupt data is only detected here
+        raise InvalidFormatError(
+            f"The JPEG-encoded chunk could not be decoded: {exc}"
+            ) from exc
     if num_channels == 3:
         # RGB channels are read by PIL along the last axis
         flat_chunk = np.moveaxis(flat_chunk, -1, 0)
